@@ -61,21 +61,28 @@ Zip(a, b, arr1, arr2) == [k |-> "zip", v |-> a, v2 |-> b, arr |-> arr1, arr2 |->
 SetOp(v, fn, arr1, arr2) == [k |-> "setop", v |-> v, fn |-> fn, arr |-> arr1, arr2 |-> arr2]
 RngTo(v, lo, hiname) == [k |-> "rangeto", v |-> v, lo |-> lo, hiname |-> hiname]     \* i in lo..j  (dependent bound)
 
+\* family "alias": the second names the language gives its built-ins - V, E, N, enum for nodes, edges,
+\* neigh_edges, enumerate; range(a, b, inclusive) for a..b; conjunction / disjunction /
+\* exclusive_disjunction for all / any / xor.  The meaning is that of the first names.
+Short == Family = "alias"
+FnName(long) == IF ~Short THEN long ELSE CASE long = "nodes" -> "V" [] long = "edges" -> "E" [] long = "neigh_edges" -> "N" [] long = "enumerate" -> "enum" [] OTHER -> long
 BinderText(b) ==
-   CASE b.k = "range" -> b.v \o " in " \o ToString(b.lo) \o ".." \o ToString(b.hi)
-     [] b.k = "rangei" -> b.v \o " in " \o ToString(b.lo) \o "..=" \o ToString(b.hi)
+   CASE b.k = "range" -> IF Short THEN b.v \o " in range(" \o ToString(b.lo) \o ", " \o ToString(b.hi) \o ", false)"
+                         ELSE b.v \o " in " \o ToString(b.lo) \o ".." \o ToString(b.hi)
+     [] b.k = "rangei" -> IF Short THEN b.v \o " in range(" \o ToString(b.lo) \o ", " \o ToString(b.hi) \o ", true)"
+                          ELSE b.v \o " in " \o ToString(b.lo) \o "..=" \o ToString(b.hi)
      [] b.k = "rangeto" -> b.v \o " in " \o ToString(b.lo) \o ".." \o b.hiname
      [] b.k = "lenrange" -> b.v \o " in 0..len(" \o b.arr \o ")"
      [] b.k = "arr" -> b.v \o " in " \o b.arr
-     [] b.k = "enum" -> "(" \o b.v \o ", " \o b.v2 \o ") in enumerate(" \o b.arr \o ")"
+     [] b.k = "enum" -> "(" \o b.v \o ", " \o b.v2 \o ") in " \o FnName("enumerate") \o "(" \o b.arr \o ")"
      [] b.k = "rows" -> b.v \o " in M2"
      [] b.k = "elems" -> b.v \o " in " \o b.of
-     [] b.k = "nodes" -> b.v \o " in nodes(G)"
-     [] b.k = "edges2" -> "(" \o b.v \o ", " \o b.v2 \o ") in edges(G)"
-     [] b.k = "edges3" -> "(" \o b.v \o ", " \o b.v2 \o ", " \o b.v3 \o ") in edges(G)"
-     [] b.k = "nodesH" -> b.v \o " in nodes(H)"
-     [] b.k = "edgesH" -> "(" \o b.v \o ", " \o b.v2 \o ") in edges(H)"
-     [] b.k = "neigh" -> "(_, " \o b.v \o ") in neigh_edges(" \o b.of \o ")"
+     [] b.k = "nodes" -> b.v \o " in " \o FnName("nodes") \o "(G)"
+     [] b.k = "edges2" -> "(" \o b.v \o ", " \o b.v2 \o ") in " \o FnName("edges") \o "(G)"
+     [] b.k = "edges3" -> "(" \o b.v \o ", " \o b.v2 \o ", " \o b.v3 \o ") in " \o FnName("edges") \o "(G)"
+     [] b.k = "nodesH" -> b.v \o " in " \o FnName("nodes") \o "(H)"
+     [] b.k = "edgesH" -> "(" \o b.v \o ", " \o b.v2 \o ") in " \o FnName("edges") \o "(H)"
+     [] b.k = "neigh" -> "(_, " \o b.v \o ") in " \o FnName("neigh_edges") \o "(" \o b.of \o ")"
      [] b.k = "zip" -> "(" \o b.v \o ", " \o b.v2 \o ") in zip(" \o b.arr \o ", " \o b.arr2 \o ")"
      [] b.k = "setop" -> b.v \o " in " \o b.fn \o "(" \o b.arr \o ", " \o b.arr2 \o ")"
 RECURSIVE JoinS(_, _, _)
@@ -147,12 +154,13 @@ SumText(cts) == IF Len(cts) = 0 THEN "0" ELSE JoinS([i \in 1..Len(cts) |-> ConcT
 \*  cmp, rhs, named |-> BOOLEAN, nameix |-> index name, for |-> binders]
 CmpText(c) == CASE c = "le" -> "<=" [] c = "ge" -> ">=" [] c = "eq" -> "="
 Logic == {"all", "any", "xor"}
+AggName(a) == IF ~Short THEN a ELSE CASE a = "all" -> "conjunction" [] a = "any" -> "disjunction" [] a = "xor" -> "exclusive_disjunction" [] OTHER -> a
 \* the variable a prod row scales: the term without its coefficient
 BareText(t) == t.base \o JoinS([i \in 1..Len(t.ixs) |-> IxText(t.ixs[i])], 1, "")
 LhsText(r) ==
    (CASE r.agg = "none" -> TermText(r.term)
       [] r.agg = "prod" -> "prod(" \o BindersText(r.inner) \o ") { " \o FactorText(r.term.coef) \o " } * " \o BareText(r.term)
-      [] OTHER -> r.agg \o "(" \o BindersText(r.inner) \o ") { " \o TermText(r.term) \o " }")
+      [] OTHER -> AggName(r.agg) \o "(" \o BindersText(r.inner) \o ") { " \o TermText(r.term) \o " }")
    \o (IF r.extra = <<>> THEN "" ELSE " + " \o TermText(r.extra[1]))
    \o JoinS([k \in 1..Len(r.more) |-> " + sum(" \o BindersText(r.more[k].inner) \o ") { " \o TermText(r.more[k].term) \o " }"], 1, "")
 RowText(r) ==
@@ -294,6 +302,7 @@ RowSet == CASE Family = "prod" -> RowsProd
             [] Family = "one" -> RowsFor1 \cup RowsSum1
             [] Family = "enum" -> RowsEnum \cup RowsTwo
             [] Family = "graph" -> RowsGraph
+            [] Family = "alias" -> RowsGraph \cup RowsEnum \cup RowsNeigh \cup RowsLogic \cup RowsFor1
             [] OTHER -> RowsFor1 \cup RowsSum1 \cup RowsEnum \cup RowsTwo \cup RowsGraph \cup RowsProd \cup RowsLogic \cup RowsSets \cup RowsNeigh \cup RowsMixed
 
 \* ---- the machine -----------------------------------------------------------------
